@@ -9,6 +9,7 @@ import (
 	"context"
 	goerr "errors"
 	"fmt"
+	"github.com/gogo/protobuf/types"
 	"net"
 	"reflect"
 	"regexp"
@@ -711,6 +712,13 @@ func init() {
 		}
 		e1 := transferOnce(o.e, nil) // what a knowing receiver gets directly
 		t0 := textTree(o.e).String()
+		// a process that knows NONE of the types, and every node carrying some payload (also the
+		// multi-cause ones): what it re-emits is byte for byte what it received
+		o.evals++
+		if why, detail := opaqueRoundTrip(o.e); why != "" {
+			o.fail(why, "", detail)
+			return
+		}
 		for _, hops := range o.c.Hops {
 			// the same journey with the other simulation of "does not know the type": the family
 			// names are renamed on the wire and every decoder stays registered
@@ -898,12 +906,32 @@ func init() {
 		if o.e == nil {
 			return
 		}
+		var hopsOf [][]string
 		check := func(where string, e error) bool {
 			for _, v := range []string{"%v", "%s", "%+v"} {
 				s := string(redact.Sprintf(v, e))
 				o.evals++
 				if ok, why := markersWellFormed(s); !ok {
-					o.fail(fmt.Sprintf("redactable %s rendering is not well-formed (%s): %s", v, where, why), "", s)
+					m := ""
+					if fixed, had := sanitizeTruncatedMarkers(o.c.R); had {
+						// recorded finding: a marker rune assembled across a line break / a nesting seam from a
+						// truncated prefix of its UTF-8 encoding.  Accepted only if the same expression without
+						// those dangling prefix bytes renders well-formed everywhere.
+						fe := fixed.Build(&BuildCtx{})
+						if hopsOf != nil {
+							fe = transfer(fe, hopsOf)
+						}
+						good := fe != nil
+						for _, v2 := range []string{"%v", "%s", "%+v"} {
+							if good {
+								good, _ = markersWellFormed(string(redact.Sprintf(v2, fe)))
+							}
+						}
+						if good {
+							m = "marker-assembled-from-truncated-utf8"
+						}
+					}
+					o.fail(fmt.Sprintf("redactable %s rendering is not well-formed (%s): %s", v, where, why), m, s)
 					return false
 				}
 			}
@@ -913,6 +941,7 @@ func init() {
 			return
 		}
 		for _, hops := range o.c.Hops {
+			hopsOf = hops
 			if !check("after hops "+hopsStr(hops), transfer(o.e, hops)) {
 				return
 			}
@@ -1009,6 +1038,11 @@ func asTargetTypeOnly(e error, kind, name string) Sx {
 
 func init() {
 	oracleTable["C07"] = func(o *octx) {
+		if _, wantNil := specText(o.c.R); wantNil != (o.e == nil) {
+			o.evals++
+			o.fail(fmt.Sprintf("the expression is nil: %v, by the documented nil propagation it should be nil: %v (a secondary / hidden error must never become the error itself)", o.e == nil, wantNil), "", "")
+			return
+		}
 		if o.e == nil || len(o.refs) == 0 || o.refs[0] == nil {
 			return
 		}
@@ -1794,17 +1828,8 @@ func init() {
 					}
 				}
 				// %+v shows every branch
-				pv := fmt.Sprintf("%+v", errors.Formattable(e))
-				var types []string
-				typeOrder(e, &types)
-				cnt := 1
-				for _, m := range wrapsRe.FindAllStringSubmatch(pv, -1) {
-					if m[1] == fmt.Sprint(cnt+1) {
-						cnt++
-					}
-				}
-				if cnt != len(types) {
-					o.fail(fmt.Sprintf("%%+v of a multi-cause error shows %d entries for %d layers", cnt, len(types)), "", pv)
+				if why, pv := verboseShowsAll(e); why != "" {
+					o.fail(why, "", pv)
 					return false
 				}
 			}
@@ -1830,6 +1855,22 @@ func init() {
 				m := ""
 				m = knownTextDiff(o.e, ek)
 				o.fail("branches (count, order or text) differ after hops "+hopsStr(hops), m, firstDiff(t0, t))
+				return
+			}
+			// the received multi-cause nodes show every branch in %+v too, also when they are
+			// the value handed to fmt
+			bad := false
+			visitAll(ek, func(x error) {
+				if bad || len(errbase.UnwrapMulti(x)) == 0 {
+					return
+				}
+				o.evals++
+				if why, pv := verboseShowsAll(x); why != "" {
+					bad = true
+					o.fail(why+" (after hops "+hopsStr(hops)+")", "", pv)
+				}
+			})
+			if bad {
 				return
 			}
 		}
@@ -1906,13 +1947,26 @@ func init() {
 				return
 			}
 		}
+		// the same questions asked of a copy received from another process, before or after
+		// the local error (the answer for one must not depend on what was asked of the other)
+		dec := transferOnce(o.e, nil)
+		order := []error{o.e, dec, o.e}
+		if len(o.c.ID)%2 == 0 {
+			order = []error{dec, o.e, dec}
+		}
 		for _, t := range asTypeTargets {
-			o.evals++
-			s := stdAs(o.e, t)
-			l := asTarget(o.e, "type", t)
-			if s.String() != "notfound" && s.String() != l.String() {
-				o.fail("the library's As finds a different first match than the standard errors.As for "+t, "", s.String()+" vs "+l.String())
-				return
+			for oi, x := range order {
+				o.evals++
+				s := stdAs(x, t)
+				l := asTarget(x, "type", t)
+				if s.String() != "notfound" && s.String() != l.String() {
+					o.fail(fmt.Sprintf("the library's As finds a different first match than the standard errors.As for %s (query %d of local/received/local)", t, oi), "", s.String()+" vs "+l.String())
+					return
+				}
+				if s.String() == "notfound" && l.String() != "notfound" && allUnwrap(x) {
+					o.fail(fmt.Sprintf("the library's As finds a match the standard errors.As does not find, on a chain of Unwrap-bearing layers, for %s (query %d)", t, oi), "", l.String())
+					return
+				}
 			}
 		}
 		// Unwrap
@@ -2189,4 +2243,154 @@ func opErrorArrowOnly(e error, got, want string) bool {
 		}
 	})
 	return found && fixed == want
+}
+
+// verboseShowsAll: %+v of a multi-cause error has one numbered entry per layer of the whole
+// tree, through Formattable and -- for a library type -- when the error formats itself.
+func verboseShowsAll(e error) (string, string) {
+	var types []string
+	typeOrder(e, &types)
+	targets := []interface{}{errors.Formattable(e)}
+	if _, isOE := e.(*errbase.OpaqueErrno); isLibOuter(e) && !isOE {
+		targets = append(targets, e)
+	}
+	for ti, tg := range targets {
+		pv := fmt.Sprintf("%+v", tg)
+		cnt := 1
+		for _, m := range wrapsRe.FindAllStringSubmatch(pv, -1) {
+			if m[1] == fmt.Sprint(cnt+1) {
+				cnt++
+			}
+		}
+		if cnt != len(types) {
+			how := "through Formattable"
+			if ti == 1 {
+				how = fmt.Sprintf("of the error itself (%T)", e)
+			}
+			return fmt.Sprintf("%%+v %s of a multi-cause error shows %d entries for %d layers", how, cnt, len(types)), pv
+		}
+	}
+	return "", ""
+}
+
+// every wrapper of the tree exposes its cause(s) through Unwrap (so that the standard
+// library walks the same nodes as the library does)
+func allUnwrap(e error) bool {
+	ok := true
+	visitAll(e, func(x error) {
+		if errors.UnwrapOnce(x) != nil {
+			if _, has := x.(interface{ Unwrap() error }); !has {
+				ok = false
+			}
+		}
+	})
+	return ok
+}
+
+func opaqueRoundTrip(e error) (string, string) {
+	ctx := context.Background()
+	enc := errors.EncodeError(ctx, e)
+	pl, err := types.MarshalAny(&errorspb.StringPayload{Msg: "payload of a type unknown here"})
+	if err != nil {
+		panic(err)
+	}
+	skip := false
+	var all func(x *errorspb.EncodedError)
+	all = func(x *errorspb.EncodedError) {
+		one := func(d *errorspb.EncodedErrorDetails) {
+			d.ErrorTypeMark.FamilyName += unkSuffix
+			if d.FullDetails == nil {
+				d.FullDetails = pl
+			} else {
+				var da types.DynamicAny
+				if err := types.UnmarshalAny(d.FullDetails, &da); err == nil {
+					if _, isErr := da.Message.(error); isErr {
+						// a payload that is itself an error (a protobuf message implementing error) IS
+						// the error, whatever the family name says: the process knows that type
+						skip = true
+					}
+				}
+			}
+		}
+		if w := x.GetWrapper(); w != nil {
+			one(&w.Details)
+			all(&w.Cause)
+		} else if l := x.GetLeaf(); l != nil {
+			one(&l.Details)
+			for _, c := range l.MultierrorCauses {
+				all(c)
+			}
+		}
+	}
+	all(&enc)
+	if skip {
+		return "", ""
+	}
+	b0, err := proto.Marshal(&enc)
+	if err != nil {
+		panic(err)
+	}
+	var in errorspb.EncodedError
+	if err := proto.Unmarshal(b0, &in); err != nil {
+		panic(err)
+	}
+	mid := errors.DecodeError(ctx, in)
+	b1 := marshalEnc(mid)
+	if !bytes.Equal(b0, b1) {
+		var out errorspb.EncodedError
+		proto.Unmarshal(b1, &out)
+		return "a process that knows none of the types re-encodes a message different from the one it received (every node given a payload)",
+			firstDiff(encSx(&in).String(), encSx(&out).String())
+	}
+	return "", ""
+}
+
+// sanitizeTruncatedMarkers: the recipe with every dangling E2 / E2 80 that ends a string or
+// precedes a newline removed; had = some string contained one.
+func sanitizeTruncatedMarkers(r *R) (*R, bool) {
+	c := cloneR(r)
+	had := false
+	fix := func(s string) string {
+		b := []byte(s)
+		var out []byte
+		for i := 0; i < len(b); i++ {
+			if b[i] == 0xe2 {
+				j := i + 1
+				if j < len(b) && b[j] == 0x80 {
+					j++
+				}
+				if j == len(b) || b[j] == '\n' {
+					// E2 or E2 80 dangling at the end of the string / of a line
+					had = true
+					i = j - 1
+					continue
+				}
+			}
+			out = append(out, b[i])
+		}
+		return string(out)
+	}
+	var walk func(x *R)
+	walk = func(x *R) {
+		for i := range x.S {
+			x.S[i] = fix(x.S[i])
+		}
+		for i := range x.Strs {
+			x.Strs[i] = fix(x.Strs[i])
+		}
+		for i := range x.Tags {
+			x.Tags[i].K, x.Tags[i].V = fix(x.Tags[i].K), fix(x.Tags[i].V)
+		}
+		for i := range x.Fmt {
+			x.Fmt[i].S = fix(x.Fmt[i].S)
+			if x.Fmt[i].R != nil {
+				walk(x.Fmt[i].R)
+			}
+		}
+		for _, k := range x.Kids {
+			walk(k)
+		}
+	}
+	walk(c)
+	return c, had
 }
